@@ -913,7 +913,7 @@ func dischargeForce(li *LockInfo, fn *ssa.Function, call ssa.CallInstruction, gu
 			if len(ga) == 0 || valuePath(ga[0]) != rp {
 				continue
 			}
-			if guardedByTruth(fn, call.(ssa.Instruction), g, want) {
+			if guardedByTruth(fn, call.(ssa.Instruction), g, want) && !clearedBetween(li, fn, g, call.(ssa.Instruction)) {
 				ok = true
 			}
 		}
@@ -968,7 +968,7 @@ func dischargeForce(li *LockInfo, fn *ssa.Function, call ssa.CallInstruction, gu
 					continue
 				}
 				ga := callArgs(g)
-				if len(ga) > 0 && valuePath(ga[0]) == want && guardedByTruth(cs.caller, cs.in, g, wantT) {
+				if len(ga) > 0 && valuePath(ga[0]) == want && guardedByTruth(cs.caller, cs.in, g, wantT) && !clearedBetween(li, cs.caller, g, cs.in) {
 					found = true
 				}
 			}
@@ -1046,4 +1046,71 @@ func sameBase(a, b ssa.Value) bool {
 		}
 	}
 	return false
+}
+
+// clearers: functions that may reset a presence-tested value (Header.SyncRemove
+// sets value = None), transitively through the call graph.
+var clearerMemo map[*ssa.Function]bool
+
+func mayClear(li *LockInfo, f *ssa.Function, seen map[*ssa.Function]bool) bool {
+	if clearerMemo == nil {
+		clearerMemo = map[*ssa.Function]bool{}
+	}
+	if v, ok := clearerMemo[f]; ok {
+		return v
+	}
+	if seen[f] {
+		return false
+	}
+	seen[f] = true
+	res := false
+	if strings.HasSuffix(fnKey(f), "headers.Header).SyncRemove") {
+		res = true
+	}
+	if !res {
+		eachInstr(f, func(in ssa.Instruction) {
+			if res {
+				return
+			}
+			if call, ok := asCall(in); ok {
+				if strings.HasSuffix(calleeName(call), "headers.Header).SyncRemove") {
+					res = true
+					return
+				}
+			}
+			for _, g := range li.Callees[in] {
+				if mayClear(li, g, seen) {
+					res = true
+					return
+				}
+			}
+		})
+	}
+	clearerMemo[f] = res
+	return res
+}
+
+// clearedBetween: on some path from the presence test to the use there is a
+// call that may clear the tested value (the test result is then stale).
+func clearedBetween(li *LockInfo, fn *ssa.Function, guard, site ssa.Instruction) bool {
+	found := false
+	eachInstr(fn, func(in ssa.Instruction) {
+		if found || in == guard || in == site {
+			return
+		}
+		call, ok := asCall(in)
+		if !ok {
+			return
+		}
+		clears := strings.HasSuffix(calleeName(call), "headers.Header).SyncRemove")
+		for _, g := range li.Callees[in] {
+			if mayClear(li, g, map[*ssa.Function]bool{}) {
+				clears = true
+			}
+		}
+		if clears && reachableInstr(guard, in, nil) && reachableInstr(in, site, nil) {
+			found = true
+		}
+	})
+	return found
 }
